@@ -39,6 +39,8 @@ def plan(tier, seed):
         shards.append(("recon", pi, tier))
     shards.append(("linear", tier))
     shards.append(("orders",))
+    shards.append(("filters", tier))
+    shards.append(("grainsino", tier))
     k = seed % len(shards)
     return shards[k:] + shards[:k]
 
@@ -368,8 +370,126 @@ def _run_orders(desc):
     return sh
 
 
+FILTERS = ("ramp", "shepp-logan", "cosine", "hamming", "hann", None)
+
+
+def _run_filters(desc):
+    """every filter of the back-projection, in every ordered pair (thorough: triple) of calls within one process: a call's image is the
+    one the same call gives in a fresh history (the first call of each filter), for 1 and 3 workers and under a region mask, and it
+    is linear"""
+    _, tier = desc
+    from ImageD11.sinograms import geometry as G, roi_iradon as R
+    sh = Shard()
+    ny, ystep = 32, 1.0
+    ymin = -(ny // 2) * ystep
+    omega = np.arange(0.0, 180.0, 2.0)
+    y0 = 1.5
+    shift, pad = G.sino_shift_and_pad(y0, ny, ymin, ystep)
+    pad = int(pad)
+    s1, _ = point_sino(G, 4.0, -3.0, y0, ny, ymin, ystep, omega)
+    s2 = (np.add.outer(np.arange(ny), np.arange(len(omega))) % 6 == 0).astype(np.float32)
+    first = {}
+    depth = 2 if tier == "quick" else 3
+    for seq in itertools.product(range(len(FILTERS)), repeat=depth):
+        for pos, fi in enumerate(seq):
+            f = FILTERS[fi]
+            rec = R.run_iradon(s1, omega, pad=pad, shift=shift, workers=1, filter_name=f)
+            case = {"kind": "filters", "history": [str(FILTERS[k]) for k in seq[:pos + 1]]}
+            if fi not in first:
+                first[fi] = rec.copy()
+            elif not np.array_equal(rec, first[fi]):
+                sh.violation("iradon:image-depends-on-earlier-calls-in-the-process", case, {"max_diff": float(np.abs(rec - first[fi]).max()),
+                                                                                         "scale": float(np.abs(first[fi]).max())})
+                return sh
+            sh.evaluations += 1
+            sh.nontrivial += 1
+    nn = first[0].shape[0]
+    I, J = np.mgrid[0:nn, 0:nn]
+    disc = (I - nn / 2) ** 2 + (J - nn / 2) ** 2 < (nn / 3) ** 2
+    for fi, f in enumerate(FILTERS):
+        scale = np.abs(first[fi]).max()
+        case = {"kind": "filters", "history": [str(f)], "filter": str(f)}
+        r3 = R.run_iradon(s1, omega, pad=pad, shift=shift, workers=3, filter_name=f)
+        if np.abs(r3 - first[fi]).max() > 1e-5 * scale:
+            sh.violation("worker-count-changes-result", dict(case, workers=3), {"max_diff": float(np.abs(r3 - first[fi]).max())})
+        rm = R.run_iradon(s1, omega, pad=pad, shift=shift, workers=2, filter_name=f, mask=disc)
+        if np.abs(rm[disc] - first[fi][disc]).max() > 1e-5 * scale:
+            sh.violation("roi-mask-changes-values", dict(case, mask="disc"), {"max_diff": float(np.abs(rm[disc] - first[fi][disc]).max())})
+        rb = R.run_iradon(s2, omega, pad=pad, shift=shift, workers=1, filter_name=f)
+        rc = R.run_iradon((2.0 * s1 - 0.5 * s2).astype(np.float32), omega, pad=pad, shift=shift, workers=1, filter_name=f)
+        sc2 = max(scale, np.abs(rb).max())
+        if np.abs(rc - (2.0 * first[fi] - 0.5 * rb)).max() > 1e-4 * sc2 * 2.5:
+            sh.violation("iradon-not-linear", dict(case, a=2.0, b=-0.5), {"max_diff": float(np.abs(rc - (2.0 * first[fi] - 0.5 * rb)).max())})
+        ri, rj = G.sample_to_recon(4.0, -3.0, first[fi].shape, ystep)
+        ci, cj = centroid_of_max(first[fi])
+        if f is not None and np.hypot(ci - ri, cj - rj) > 1.5:
+            sh.violation("reconstruction-not-where-geometry-predicts", dict(case, sx=4.0, sy=-3.0), {"found": [ci, cj], "predicted": [float(ri), float(rj)]})
+        sh.evaluations += 4
+        sh.outcomes.add(("filter", str(f)))
+    sh.sample(case, limit=1)
+    return sh
+
+
+def _run_grainsino(desc):
+    """the GrainSinogram route (update_recon_parameters + recon): ONE object taken through every sequence (length <= 3) of scan settings,
+    among them the ones whose shift is exactly 0; the last reconstruction equals run_iradon with that setting's own shift and pad and
+    shows the point grain where the geometry predicts"""
+    _, tier = desc
+    from ImageD11.sinograms import geometry as G, roi_iradon as R, sinogram as SG
+    from ImageD11 import grain as _grain
+    from ImageD11.sinograms import dataset as _dsm
+    import io, contextlib
+    with contextlib.redirect_stdout(io.StringIO()):
+        _ds = _dsm.DataSet(dataroot=".", analysisroot=".", sample="s", dset="d")
+    sh = Shard()
+    ystep = 1.0
+    omega = np.arange(0.0, 180.0, 2.0)
+    settings = [(40, 2.5), (40, 0.0), (40, -3.3), (41, 0.5), (41, -2.0)]
+    sx, sy = 5.0, -4.0
+    prepared = []
+    for ny, y0 in settings:
+        ymin = -(ny // 2) * ystep
+        sino, inside = point_sino(G, sx, sy, y0, ny, ymin, ystep, omega)
+        shift, pad = G.sino_shift_and_pad(y0, ny, ymin, ystep)
+        want = R.run_iradon(sino, omega, pad=int(pad), shift=shift, workers=1)
+        prepared.append((sino, shift, int(pad), y0, want))
+    depth = 3 if tier == "quick" else 4
+    for L in range(1, depth + 1):
+        for seq in itertools.product(range(len(settings)), repeat=L):
+            gs = SG.GrainSinogram(_grain.grain(np.eye(3) * 4.0), _ds)
+            gs.sinoangles = omega
+            for k in seq[:-1]:
+                sino, shift, pad, y0, want = prepared[k]
+                gs.ssino = sino
+                gs.update_recon_parameters(pad=pad, shift=shift, y0=y0)
+            sino, shift, pad, y0, want = prepared[seq[-1]]
+            gs.ssino = sino
+            gs.update_recon_parameters(pad=pad, shift=shift, y0=y0)
+            rec = gs.recon(method="iradon", workers=1)
+            case = {"kind": "grainsino", "settings(ny,y0)": [list(settings[k]) for k in seq], "shifts": [float(prepared[k][1]) for k in seq]}
+            if (gs.recon_pad, gs.recon_shift, gs.recon_y0) != (pad, shift, y0):
+                sh.violation("GrainSinogram.update_recon_parameters:value-not-stored", case, {"stored": [gs.recon_pad, gs.recon_shift, gs.recon_y0],
+                                                                                            "given": [pad, float(shift), y0]})
+                return sh
+            if rec.shape != want.shape or not np.array_equal(rec, want):
+                sh.violation("GrainSinogram.recon:differs-from-run_iradon-with-the-same-shift-and-pad", case, {"shape": list(rec.shape), "expected_shape": list(want.shape)})
+                return sh
+            ri, rj = G.sample_to_recon(sx, sy, rec.shape, ystep)
+            ci, cj = centroid_of_max(rec)
+            if np.hypot(ci - ri, cj - rj) > 1.5:
+                sh.violation("reconstruction-not-where-geometry-predicts", dict(case, sx=sx, sy=sy), {"found": [ci, cj], "predicted": [float(ri), float(rj)]})
+                return sh
+            sh.evaluations += 1
+            if L > 1:
+                sh.nontrivial += 1
+    sh.outcomes.add("grainsino")
+    sh.sample(case, limit=1)
+    return sh
+
+
 def run_shard(desc):
-    return {"conv": _run_conv, "recon": _run_recon, "linear": _run_linear, "orders": _run_orders}[desc[0]](desc)
+    return {"conv": _run_conv, "recon": _run_recon, "linear": _run_linear, "orders": _run_orders, "filters": _run_filters,
+            "grainsino": _run_grainsino}[desc[0]](desc)
 
 
 def replay(case):
@@ -384,6 +504,10 @@ def replay(case):
         r.violations = [v for v in r.violations if all(v["case"][k] == case[k] for k in ("ny", "y0", "range", "pad", "ystep"))]
     elif kind == "orders":
         r = _run_orders(("orders",))
+    elif kind == "filters":
+        r = _run_filters(("filters", "thorough" if len(case["history"]) > 2 else "quick"))
+    elif kind == "grainsino":
+        r = _run_grainsino(("grainsino", "thorough" if len(case["shifts"]) > 3 else "quick"))
     else:
         r = _run_linear(("linear", "quick"))
     return (not r.violations), {"violations": r.violations[:3]}
